@@ -373,3 +373,109 @@ func checkC11IO(c C11IOCase) error {
 func init() { reg("C11.ioerr", checkC11IO) }
 
 func init() { reg("C11.include", checkC11) }
+
+// ---- relative names in a sub-directory ---------------------------------------------------------
+
+type C11RelCase struct {
+	Opts   int `json:"opts"`   // bit0 with, bit1 only, bit2 ignore missing, bit3 sandboxed
+	Target int `json:"target"` // 0 existing, 1 missing, 2 the as-written name fails in the loader, 3 existing but broken
+}
+
+type c11MapLoader struct {
+	tmpls   map[string]string
+	failing map[string]bool
+}
+
+func (l c11MapLoader) Load(name string) (string, error) {
+	if l.failing[name] {
+		return "", fmt.Errorf("read %s: backend unavailable: %w", name, errSentinel)
+	}
+	if s, ok := l.tmpls[name]; ok {
+		return s, nil
+	}
+	return "", fmt.Errorf("%w: %s", twig.ErrTemplateNotFound, name)
+}
+func (l c11MapLoader) Exists(name string) bool { _, ok := l.tmpls[name]; return ok || l.failing[name] }
+
+// checkC11Rel: an includer in a sub-directory names the included template relative to itself.
+// (0) an existing template: same output as with its full name; (1) a missing one: empty output
+// with `ignore missing`, an error without; (2) nothing at the resolved name and a loader failure
+// (not "not found") for the name as written; (3) a template that exists but does not parse:
+// both are "other failures" and must be reported, `ignore missing` or not.
+func checkC11Rel(c C11RelCase) error {
+	opts := ""
+	if c.Opts&4 != 0 {
+		opts += " ignore missing"
+	}
+	if c.Opts&1 != 0 {
+		opts += " with {'w1': 55, 'q': 66}"
+	}
+	if c.Opts&2 != 0 {
+		opts += " only"
+	}
+	if c.Opts&8 != 0 {
+		opts += " sandboxed"
+	}
+	rel := []string{"./inc", "./gone", "./bad", "./broken"}[c.Target]
+	abs := []string{"pages/inc", "pages/gone", "pages/bad", "pages/broken"}[c.Target]
+	mk := func(name string) (*twig.Engine, map[string]string) {
+		tm := map[string]string{
+			"pages/main":   "A({{ p }},{{ q }}){% include '" + name + "'" + opts + " %}B({{ p }},{{ q }})",
+			"pages/inc":    "<{{ p }},{{ q }},{{ w1 }}{% set p = 901 %}{{ p }}>",
+			"pages/broken": "{% if x %}never closed",
+			"inc":          "WRONG-DIRECTORY",
+		}
+		e := twig.New()
+		e.RegisterLoader(c11MapLoader{tm, map[string]bool{"./bad": true}})
+		e.EnableSandbox(allowAll{})
+		return e, tm
+	}
+	ctx := func() map[string]interface{} { return map[string]interface{}{"p": 3, "q": 14} }
+	eR, tm := mk(rel)
+	rr := render(eR, "pages/main", ctx())
+	eA, _ := mk(abs)
+	ra := render(eA, "pages/main", ctx())
+	if rr.Panic != "" || ra.Panic != "" {
+		return fmt.Errorf("panic: %v / %v", rr, ra)
+	}
+	switch c.Target {
+	case 0:
+		if rr.Failed() || ra.Failed() || rr.Out != ra.Out {
+			return fmt.Errorf("include of %s from pages/main renders %v, include of %s renders %v; main: %s", rel, rr, abs, ra, q(tm["pages/main"]))
+		}
+	case 1:
+		if c.Opts&4 != 0 {
+			if rr.Failed() || rr.Out != "A(3,14)B(3,14)" {
+				return fmt.Errorf("include of the missing %s with ignore missing renders %v; main: %s", rel, rr, q(tm["pages/main"]))
+			}
+		} else if rr.Err == "" || !errors.Is(rr.Error(), twig.ErrTemplateNotFound) {
+			return fmt.Errorf("include of the missing %s: %v (want an error matching ErrTemplateNotFound); main: %s", rel, rr, q(tm["pages/main"]))
+		}
+	case 2:
+		if rr.Err == "" || !errors.Is(rr.Error(), errSentinel) {
+			return fmt.Errorf("the loader fails (I/O) for the name as written, nothing exists at the resolved name: render gives %v, want an error wrapping the loader's; main: %s", rr, q(tm["pages/main"]))
+		}
+	case 3:
+		if rr.Err == "" || errors.Is(rr.Error(), twig.ErrTemplateNotFound) {
+			return fmt.Errorf("the included template exists but does not parse: render gives %v, want the parse error; main: %s", rr, q(tm["pages/main"]))
+		}
+	}
+	return nil
+}
+
+func TestC11Relative(t *testing.T) {
+	r := NewRec(t, "C11", "exhaustive: an includer in a sub-directory includes by relative name, all 16 option combinations x {existing template (compared with the include by full name), missing template, loader I/O failure for the name as written, existing template that does not parse}; all cases non-trivial")
+	defer r.Flush()
+	r.SetExhaustive()
+	for opts := 0; opts < 16; opts++ {
+		for target := 0; target < 4; target++ {
+			c := C11RelCase{Opts: opts, Target: target}
+			r.Case(fmt.Sprint(opts, target), true, c)
+			if err := checkC11Rel(c); err != nil {
+				r.FailEnum(t, "C11.rel", c, err)
+			}
+		}
+	}
+}
+
+func init() { reg("C11.rel", checkC11Rel) }
